@@ -633,3 +633,10 @@ def x9(cx: Cx, ob: Ob) -> None:
     ci = cx.model.cls(CONV, ob.id)
     roots = [f"{API}._prepare"] + [m.qualname for m in ci.methods.values() if m.name.startswith("from_")] + [q for q in cx.model.functions if q.startswith(f"{API}.load_")]
     memoised_io(cx, ob, roots)
+
+
+@obligation("C14-X12", "def-use lints over the files this property is anchored in (api.py): no one-shot iterator (generator expression, map, filter, zip, iter, reversed, enumerate, generator call) bound to a name is consumed twice or inside a loop that starts after its creation; no mutable default argument is mutated, stored or returned", floor=1)
+def x12(cx: Cx, ob: Ob) -> None:
+    from ..rules import package_lints
+
+    package_lints(cx, ob, {'api.py'})
